@@ -28,6 +28,13 @@ CLAIMED["C02"] = (
     "DESIGN.md §3 C02",
 )
 
+CLAIMED["C18"] = (
+    "ast effect (purity) analysis: flow-sensitive provenance of every store / container mutation / setattr to the parameters (and their elements) it may reach, summaries propagated to a fixpoint over the resolved call graph (self calls, typed receivers, setters, unbound class calls, by-name fallback requiring agreement), evaluated at every read-only entry point",
+    "Per operation, hence for every sequence of operations: no method of a model class other than the named mutator families (401 methods and property getters: queries, goal checks, equality/hash, copy/pickle hooks, draw, derivations such as merge_lanelets) writes into self or a model-typed argument, directly or through callees; no function of the XML/protobuf writers or the visualization modules (239) writes into an object typed as a model class; a read-only method that drops the spatial index rebuilds it before returning. Tolerated: filling an empty memo slot inside the getter that returns it, and the designated index refresh function writing only derived caches (their agreement with the dependencies is C11).",
+    "Trusts annotations for receiver types, that third-party code (shapely, lxml, matplotlib, numpy, protobuf) does not mutate model objects handed to it, that objects constructed inside an operation do not alias caller state through their constructor arguments, and the mutator name-family table (operations whose purpose is to change the object).",
+    "DESIGN.md §2 E-PURITY, §3 C18",
+)
+
 CLAIMED["C09"] = (
     "ast pairing analysis of Scenario: id paths reserved per add_objects branch vs released per removal form (single/list), containment guards by syntax-directed dominance, ownership (who may drop / touch _id_set), atomic reservation, counter monotonicity",
     "Per-operation invariant argument that covers every history: each add branch reserves the id paths of the object it stores in one all-or-nothing step before storing; each removal form releases exactly those paths and only under a containment guard; only designated functions drop objects or touch the id pool; replacing the network releases the old ids; the counter only grows and generate_object_id folds in max(_id_set). Decided for all 9 object kinds and 5 removal functions.",
